@@ -1,14 +1,18 @@
 /-
   C01 — compiled clauses compute exactly Prolog's answers, in order.
 
-  Body level: Yld/Properties/C06.lean proves that every rewriting step of `compile_body`
-  preserves the reference semantics; the full statement `exec (comp b ks) = solve (b, ks…)`
-  (Theorem A of DESIGN.md) is work in progress and until it is closed the three-way correspondence
-  (real engine = model of compiled code = reference semantics) stands in for it on every run.
-  Clause level: the statements below.
+  Body level (Theorem A) and program level are proved in Yld/Proofs/CompCorrect.lean,
+  Parametric.lean and Program.lean and restated here; the clause-level facts follow.
+  The one step that is not proved is between the clause activation the generated code performs
+  (a head argument that is a once-occurring plain variable is identified with the argument) and the
+  textbook activation (a fresh variable for every clause variable, then head unification): the two
+  differ in which cells are allocated, so they agree only up to renaming of unbound variables. That
+  step is covered by tie T2 on every run (mode `reference` of the driver uses the textbook
+  activation; the real engine, `compiled` and `reference` must agree on canonical answers).
 -/
 import Yld.Model.Api
 import Yld.Model.Parser
+import Yld.Proofs.Program
 import Std.Data.String.ToNat
 namespace Yld.C01
 
@@ -70,5 +74,27 @@ theorem head_unify_left_to_right (fuel : Nat) (env : Env) (args : List Term) (i 
     every other position is unified. -/
 example : headAlias [.var "V_X", .var "V_Y", .var "V_X", .atom "a", .fn "f" [.var "V_Y"]]
     = [none, some "V_Y", none, none, none] := by decide
+
+/-- **Theorem A.** The code `compile_body` emits for a clause body — any nesting of `,` `;` `->`
+    `\\+` `!`, calls, true, fail — has exactly the reference semantics: for every consumer of
+    the enclosing function, every world, every parametric meaning of the calls, every value of the
+    label counter. -/
+theorem compiled_body_is_reference (q : Q) (hq : Parametric q) (env : Env) (b : Body) (hb : Src b) (n : Nat)
+    (k : K) (hk : External k) (w : World) :
+    execList q env (comp b [] n).1 k w = solve q env 0 b k w :=
+  compile_body_correct q hq env b hb n k hk w
+
+/-- The engine's own `query` satisfies Theorem A's hypothesis at every fuel. -/
+theorem engine_query_is_parametric (cfg : Cfg) (f : Nat) : Parametric (query cfg f) := query_parametric cfg f
+
+/-- Bodies built by the front end are source bodies. -/
+theorem front_end_bodies_are_source (rb : RBody) (b : Body) (h : bodyOfRaw rb = .ok b) : Src b := bodyOfRaw_src rb b h
+
+/-- **Program level.** Running the generated code of a whole program equals running the reference
+    semantics of its clause bodies (under the same clause activations): the same generator — same
+    answers, order, multiplicity, bindings at each answer, faults, termination at every fuel. -/
+theorem compiled_program_is_reference (cfg : Cfg) (hsrc : SrcDefs cfg.defs) (f : Nat) (name : String) (args : List Term) :
+    query (cfg.withMode .compiled) f name args = query (cfg.withMode .refbody) f name args :=
+  program_correct cfg hsrc f name args
 
 end Yld.C01
